@@ -74,10 +74,28 @@ INFO = {
  "C16-6": ("C16", "Covercrypt::default seeds its RNG from the wall clock (seconds)", "two instances created within the same second: identical streams"),
  "C17-6": ("C17", "generate_user_secret_key runs on a clone of the shared RNG ('release the lock early')", "two keys generated back to back on one instance: same identifier, one registry entry"),
  "C18-6": ("C18", "full_decaps' hybridized branch ignores the activation flag", "a hybridized multi-target original one of whose targets was disabled afterwards: recaps fails with 'no public key'"),
+ "C01-7": ("C01", "Dict::remove fills the freed slot with swap_remove (index map consistent, order scrambled)", "deleting an attribute that is neither last nor second to last of a hierarchy, then key generation for a higher attribute"),
+ "C02-7": ("C02", "AccessStructure::add_attribute takes the LAST attribute of a hierarchy as the one holding its greatest id", "an attribute inserted below the top of a hierarchy (new global max id), then one more add: two attributes share an id"),
+ "C03-7": ("C03", "Dimension::write serializes the attributes sorted by id (same change as C02-5)", "a hierarchy whose rank order differs from creation order, stored and reloaded"),
+ "C04-7": ("C04", "UserSecretKey::read rebuilds chains with push_front (same change as C13-1)", "a refreshed key holding 2 revisions, stored and reloaded, then refreshed after the next rotation: integrity check fails"),
+ "C05-7": ("C05", "Covercrypt::prune_master_secret_key resolves the policy with ap_to_enc_rights", "rekey + prune of a policy, then a keep-old refresh and an old encapsulation for another right of the same key"),
+ "C06-7": ("C06", "update_msk no longer refuses rights born disabled: they get an activated secret", "an attribute added to another dimension after the disable, then update_msk"),
+ "C07-7": ("C07", "EncryptedHeader::decrypt skips AES-GCM when the ciphertext is exactly nonce + tag (same change as C12-3)", "a header generated with empty metadata, any bit of its 28 bytes flipped"),
+ "C08-7": ("C08", "Covercrypt::refresh_usk returns Ok early for a key holding no right", "a key tampered so that all its rights are removed (signature kept or not)"),
+ "C09-7": ("C09", "Dict::remove skips the index shift when the removed entry is the second to last (len already decremented)", "deleting the attribute right below the top of a hierarchy, then using the top attribute: AttributeNotFound"),
+ "C10-7": ("C10", "Dimension::add_attribute (anarchy) overwrites an existing attribute, then reports the duplicate", "a refused add of an existing name in an anarchic dimension: new id, hint and status reset inside the master key"),
+ "C11-7": ("C11", "refresh_coordinate_keys matches user and master secrets on the ElGamal scalar only", "a hint downgrade of an existing right, a key issued before it, keep-old refresh: the key keeps its ML-KEM material"),
+ "C12-7": ("C12", "shuffle rewritten as Fisher-Yates with len - 1 (same change as C14-1)", "an altered ciphertext whose component count is zero: decryption panics"),
+ "C13-7": ("C13", "Dimension::read returns the default (anarchy) dimension when the attribute count is zero", "a hierarchy with no attribute at the time of the round-trip"),
+ "C14-7": ("C14", "decaps slices the trap vector with ..=usk.tracing_level()", "a well-formed encapsulation with fewer traps than the user key has markers"),
+ "C15-7": ("C15", "parse strips an outer '(' ... ')' pair of a group without checking that the two match", "a group whose content starts with one sub-group and ends with another: '((A || B) && (C || D))' is rejected"),
+ "C16-7": ("C16", "MasterSecretKey::mpk publishes the most recent ACTIVATED secret (same change as C09-5)", "rekey, disable + update, rekey: the pre-rekey public value is published again"),
+ "C17-7": ("C17", "refresh moves the identifier out of the user key before the registry lookup (same change as C10-1)", "a refresh refused because the identifier is unknown: the key is left with an empty identifier"),
+ "C18-7": ("C18", "MasterSecretKey::mpk publishes the most recent ACTIVATED secret (same change as C09-5)", "encapsulate, rekey, disable + update, recaps: succeeds for a right that cannot be published"),
  "C07-2": ("C07", "Encapsulations::read accepts any flag value other than 1 as 'classic' (flag turned into a bool, error branch removed)", "a classic encapsulation whose flag byte is changed in bits 1..6: it deserializes to the same object and still decapsulates"),
 }
 logs = ""
-for f in ("/var/tmp/seedeval.txt", "/var/tmp/seedeval2.txt", "/var/tmp/seedeval3.txt", "/var/tmp/seedeval4.txt", "/var/tmp/seedeval5.txt", "/var/tmp/seedeval5_c03.txt", "/var/tmp/seedeval6.txt", "/var/tmp/seedeval6b.txt", "/var/tmp/seedeval6c.txt", "/var/tmp/seedeval7.txt", "/var/tmp/seedeval8.txt", "/var/tmp/seedeval9.txt"):
+for f in ("/var/tmp/seedeval.txt", "/var/tmp/seedeval2.txt", "/var/tmp/seedeval3.txt", "/var/tmp/seedeval4.txt", "/var/tmp/seedeval5.txt", "/var/tmp/seedeval5_c03.txt", "/var/tmp/seedeval6.txt", "/var/tmp/seedeval6b.txt", "/var/tmp/seedeval6c.txt", "/var/tmp/seedeval7.txt", "/var/tmp/seedeval8.txt", "/var/tmp/seedeval9.txt", "/var/tmp/seedeval10.txt", "/var/tmp/seedeval11.txt"):
     if os.path.exists(f):
         logs += open(f).read()
 # split per section
@@ -89,7 +107,9 @@ for ln in logs.split("\n"):
     m = re.match(r"=== (\S+)", ln)
     if m:
         key = m.group(1)
-        if key.startswith("/tmp/mut6/"):
+        if key.startswith("/tmp/mut7/"):
+            cur = key.split("/")[-1] + "-7"
+        elif key.startswith("/tmp/mut6/"):
             cur = key.split("/")[-1] + "-6"
         elif key.startswith("/tmp/mut5/"):
             cur = key.split("/")[-1] + "-5"
@@ -108,7 +128,7 @@ for ln in logs.split("\n"):
     elif cur:
         sections[cur].append(ln)
 confirm = {}
-for f in ("/var/tmp/confirm.txt", "/var/tmp/confirm2.txt", "/var/tmp/confirm3.txt", "/var/tmp/confirm4.txt", "/var/tmp/confirm5.txt", "/var/tmp/confirm6.txt"):
+for f in ("/var/tmp/confirm.txt", "/var/tmp/confirm2.txt", "/var/tmp/confirm3.txt", "/var/tmp/confirm4.txt", "/var/tmp/confirm5.txt", "/var/tmp/confirm6.txt", "/var/tmp/confirm7.txt"):
     if os.path.exists(f):
         for ln in open(f):
             m = re.match(r"(C\d+(?:-\d)?) \| (.*)", ln)
